@@ -8,6 +8,7 @@ import (
 	"encoding/base64"
 	"fmt"
 	"io"
+	"regexp"
 	"strings"
 
 	"github.com/tdewolff/minify/v2"
@@ -173,7 +174,21 @@ func c18Registries() []c18Reg {
 		w.Write(b[:len(b)/2])
 		return fmt.Errorf("stub failure")
 	})
-	return []c18Reg{{"empty", empty}, {"stub", stub}, {"real", newM(nil)}}
+	// a registry that minifies plain text (the default type of a data URI) and everything under a pattern
+	plain := minify.New()
+	upper := func(_ *minify.M, w io.Writer, r io.Reader, _ map[string]string) error {
+		b, _ := io.ReadAll(r)
+		for i, c := range b {
+			if c >= 'a' && c <= 'z' {
+				b[i] = c - 32
+			}
+		}
+		_, err := w.Write(b)
+		return err
+	}
+	plain.AddFunc("text/plain", upper)
+	plain.AddFuncRegexp(regexp.MustCompile(`^(image|application)/`), upper)
+	return []c18Reg{{"empty", empty}, {"stub", stub}, {"real", newM(nil)}, {"plain", plain}}
 }
 
 var c18Types = []string{"", "text/plain", "TEXT/Plain", "text/plainx", "text/plain-x", "text/html", "image/svg+xml", "text/css", "application/json", "application/javascript", "text/x-upper", "text/x-quote", "text/x-quote", "text/x-fail", "image/png", "application/octet-stream", "Text/X-Upper"}
@@ -459,7 +474,7 @@ func c18GenMediatype(r *core.Rand) []byte {
 			}
 			for j := 0; j < n; j++ {
 				// guard for known finding C18 mediatype-escaped-quote: no \" inside strings; a backslash is always doubled
-				cs := "abcXYZ  ;=,/\t\\"
+				cs := "abcXYZ  ;=,/\t\\'(')"
 				c := cs[r.Intn(len(cs))]
 				sb.WriteByte(c)
 				if c == '\\' {
